@@ -105,6 +105,12 @@ def cases(tier, seed):
                "schedule": ["A", "B", "A", "B"]}
         yield {"kind": "schedule", "cls": cls, "content": "l0\nl1\nl2\nl3\n", "source": "last_first",
                "schedule": ["A", "A"]}
+    # sessions: close + reopen the same object (X) between reads - a read after the reopen must not depend on where the previous
+    # session's handle stood
+    for cls in U.PLAIN_CLASSES + U.RECORD_CLASSES:
+        for sch in (["R0", "X", "R1"], ["R1", "X", "R2"], ["R0", "R1", "X", "R2", "R3"], ["A", "X", "R1"], ["A", "A", "X", "R2", "A"],
+                    ["R-1", "X", "R0"], ["R2", "X", "R3", "X", "R0", "R1"]):
+            yield {"kind": "schedule", "cls": cls, "content": "l0\nl1\nl2\nl3\n", "source": "built", "schedule": sch}
     if quick:
         alpha, slen, contents, classes = ["A", "B", "R0", "R-1"], 4, SCHEDULE_CONTENTS, U.PLAIN_CLASSES
     else:
@@ -255,6 +261,14 @@ def _run_schedule(case):
         try:
             with f:
                 for step in case["schedule"]:
+                    if step == "X":
+                        # close and reopen the same object; iterators do not span a session, random reads do
+                        f.close()
+                        f.open()
+                        its.clear()
+                        outs = {"A": [], "B": []}
+                        trace.append(("X",))
+                        continue
                     if step in ("A", "B"):
                         if step not in its:
                             its[step] = iter(f)
